@@ -5,7 +5,12 @@
  *   set <t> <key> <val>      key: kind I `<int>`, kinds S/P `<text>:<hash>`   (P: text = decimal id, hash = what its Hash returns;
  *   rem|get|mem <t> <key>                                                      S: hash must be the real hash(text), it is checked)
  *   len|iter|riter|check <t>
- *   resize <t> <n>           assign <dst> <src>          copy <dst> <src>  (tables[dst] = copy(tables[src]))
+ *   resize <t> <n>           assign <dst> <src> (dst == src allowed)    copy <dst> <src>  (tables[dst] = copy(tables[src]))
+ *   getk <t> <key>           p = the key object the table stores for <key> (record of v = get(t, key)); get(t, p)   (path of foreach + get)
+ *   getv <t> <key>           get(t, get(t, key)): the key argument is the *value* object of one of the table's own records
+ *   newp <t> <I|S|P> k1 v1 ... kn vn [k]   tables[t] = new(Table, K, V, k1, v1, ...)  (a trailing single token: odd count, FormatError)
+ *   assignm <t> <I|S|P> k1 v1 ... kn vn    assign(tables[t], m) for a map m that is not a Table: a probe type (Len, Iter, Get with key_type/val_type)
+ *                            whose foreach yields the keys in the order given and whose get answers the value paired with the key object (n <= 30)
  *   ideal <a> <b>            Table_Ideal_Size on [a,b)
  * After every op: `O <op> [result] | <nslots> <nitems> | <slots>` — every slot `idx:storedhash:key:val` when nslots <= 200, else a
  * 32-slot window starting 4 slots before the key's home, plus `cs=` (checksum of the whole slot array) whenever nslots changed.
@@ -19,6 +24,8 @@
 #define FULL 200
 #define WIN 32
 #define ITERMAX 100
+#define MAXW 72
+#define MAXPAIRS 32
 
 enum { KI, KS, KP };
 
@@ -53,6 +60,27 @@ static void PVal_Del(var self) {
 static void Probe_New(var self, var args) { }
 var PKey = Cello(PKey, Instance(New, Probe_New, PKey_Del), Instance(Assign, PKey_Assign), Instance(Cmp, PKey_Cmp), Instance(Hash, PKey_Hash));
 var PVal = Cello(PVal, Instance(New, Probe_New, PVal_Del), Instance(Assign, PVal_Assign));
+
+/* a map that is not a Table: pairs in a fixed order (source of `assign(table, m)`) */
+struct PMap { var kt; var vt; size_t n; var* ks; var* vs; };
+static size_t PMap_Len(var self) { return ((struct PMap*)self)->n; }
+static var PMap_Iter_Init(var self) { struct PMap* m = self; return m->n ? m->ks[0] : Terminal; }
+static var PMap_Iter_Next(var self, var cur) {
+  struct PMap* m = self;
+  for (size_t i = 0; i < m->n; i++) if (m->ks[i] == cur) return i + 1 < m->n ? m->ks[i + 1] : Terminal;
+  return Terminal;
+}
+static var PMap_Iter_Type(var self) { return ((struct PMap*)self)->kt; }
+static var PMap_Get(var self, var key) {
+  struct PMap* m = self;
+  for (size_t i = 0; i < m->n; i++) if (m->ks[i] == key) return m->vs[i];
+  for (size_t i = 0; i < m->n; i++) if (eq(m->ks[i], key)) return m->vs[i];
+  return throw(KeyError, "Key %$ not in PMap!", key);
+}
+static var PMap_Key_Type(var self) { return ((struct PMap*)self)->kt; }
+static var PMap_Val_Type(var self) { return ((struct PMap*)self)->vt; }
+var PMap = Cello(PMap, Instance(Len, PMap_Len), Instance(Iter, PMap_Iter_Init, PMap_Iter_Next, NULL, NULL, PMap_Iter_Type),
+  Instance(Get, PMap_Get, NULL, NULL, NULL, PMap_Key_Type, PMap_Val_Type));
 
 /* ------------------------------------------------------------------ oracle: one map per table variable */
 typedef struct ONode { char name[40]; uint64_t hash; int64_t val; uint64_t stamp; struct ONode* next; } ONode;
@@ -274,9 +302,10 @@ int main(int argc, char** argv) {
     char* l = lines[li]; cur_line = li + 1;
     if (v_skippable(l)) continue;
     alarm(60);
-    char buf[512]; snprintf(buf, sizeof buf, "%s", l);
-    char* w[8]; int nw = 0;
-    for (char* p = strtok(buf, " "); p && nw < 8; p = strtok(NULL, " ")) w[nw++] = p;
+    char buf[8192]; snprintf(buf, sizeof buf, "%s", l);
+    char* w[MAXW]; int nw = 0; int toomany = 0;
+    for (char* p = strtok(buf, " "); p; p = strtok(NULL, " ")) { if (nw < MAXW) w[nw++] = p; else toomany = 1; }
+    if (toomany || strlen(l) >= sizeof buf) { O("bad-op"); continue; }
     if (nw == 0) continue;
     if (strcmp(w[0], "ideal") == 0) {
       uint64_t a, b;
@@ -291,13 +320,27 @@ int main(int argc, char** argv) {
     if (nw < 2 || !parse_u64(w[1], &tu) || tu >= NT) { O("bad-op"); continue; }
     int ti = (int)tu; int kind = kinds[ti]; struct Table* t = tabs[ti]; OMap* m = &omap[ti];
     const char* op = w[0];
-    int is_key_op = (strcmp(op, "set") == 0 && nw == 4) || ((strcmp(op, "rem") == 0 || strcmp(op, "get") == 0 || strcmp(op, "mem") == 0) && nw == 3);
+    int is_key_op = (strcmp(op, "set") == 0 && nw == 4) || ((strcmp(op, "rem") == 0 || strcmp(op, "get") == 0 || strcmp(op, "mem") == 0 || strcmp(op, "getk") == 0 || strcmp(op, "getv") == 0) && nw == 3);
+    int is_pair_op = (strcmp(op, "newp") == 0 || strcmp(op, "assignm") == 0) && nw >= 3 && strlen(w[2]) == 1 && strchr("ISP", w[2][0]);
     KeyTok k; int64_t v = 0; uint64_t un = 0, src = 0; int nk = -1;
+    static KeyTok pk[MAXPAIRS + 1]; static int64_t pv[MAXPAIRS + 1]; int np = 0, odd = 0;
     if (is_key_op) {
       if (!parse_key(kind, w[2], &k)) { O("bad-op"); continue; }
       if (op[0] == 's' && !parse_i64(w[3], &v)) { O("bad-op"); continue; }
       if (!seen_ok(kind, k.name, k.hash)) { O("bad-op"); continue; }
       if (kind == KS) { uint64_t rh = hash($S(k.name)); if (rh != k.hash) { XF("table-stale-hash", "op file says hash(%s) = %" PRIu64 ", the library says %" PRIu64, k.name, k.hash, rh); k.hash = rh; } }
+    } else if (is_pair_op) {
+      nk = w[2][0] == 'I' ? KI : w[2][0] == 'S' ? KS : KP;
+      int rest = nw - 3, bad = 0; np = rest / 2; odd = rest % 2;
+      if (np > MAXPAIRS - 2 || (odd && op[0] == 'a')) bad = 1;
+      for (int i = 0; i < np + odd && !bad; i++) {
+        if (!parse_key(nk, w[3 + 2 * i], &pk[i])) bad = 1;
+        else if (i < np && !parse_i64(w[4 + 2 * i], &pv[i])) bad = 1;
+      }
+      if (bad) { O("bad-op"); continue; }
+      for (int i = 0; i < np + odd && !bad; i++) if (!seen_ok(nk, pk[i].name, pk[i].hash)) bad = 1;
+      if (bad) { O("bad-op"); continue; }
+      if (nk == KS) for (int i = 0; i < np + odd; i++) { uint64_t rh = hash($S(pk[i].name)); if (rh != pk[i].hash) { XF("table-stale-hash", "op file says hash(%s) = %" PRIu64 ", the library says %" PRIu64, pk[i].name, pk[i].hash, rh); pk[i].hash = rh; } }
     } else if (strcmp(op, "new") == 0 && nw == 3 && strlen(w[2]) == 1 && strchr("ISP", w[2][0])) { nk = w[2][0] == 'I' ? KI : w[2][0] == 'S' ? KS : KP; }
     else if ((strcmp(op, "len") == 0 || strcmp(op, "iter") == 0 || strcmp(op, "riter") == 0 || strcmp(op, "check") == 0) && nw == 2) { }
     else if (strcmp(op, "resize") == 0 && nw == 3 && parse_u64(w[2], &un) && un <= 4000000) { }
@@ -334,6 +377,34 @@ int main(int argc, char** argv) {
       if (nd) { if (exc) XF("table-get", "get of bound key %s raised %s", k.name, v_exc_name(exc)); else if (val_int(kind, r) != nd->val) XF("table-get", "get %s = %" PRId64 " want %" PRId64, k.name, val_int(kind, r), nd->val); }
       else if (exc != KeyError) XF("table-keyerror", "get of absent key %s: %s, want KeyError", k.name, exc ? v_exc_name(exc) : "a value");
       if (t->nslots != nslots0 || t->nitems != nitems0 || (small0 && checksum(t, kind) != cs0)) XF("table-changed-on-error", "get %s changed the table", k.name);
+    } else if (strcmp(op, "getk") == 0 || strcmp(op, "getv") == 0) {
+      /* the key argument lives in the table's own slot array: Table_Get's address test (Table.c:523-525) answers without probing */
+      int viakey = op[3] == 'k';
+      var v1 = NULL, r = NULL; V_TRY(exc, v1 = get(tabs[ti], KEYOBJ(kind, k)));
+      ONode* nd = map_find(m, k.name);
+      if (exc) {
+        O("%s %s", op, v_exc_name(exc));
+        if (nd) XF("table-get", "get of bound key %s raised %s", k.name, v_exc_name(exc)); else if (exc != KeyError) XF("table-keyerror", "get of absent key %s: %s, want KeyError", k.name, v_exc_name(exc));
+      } else {
+        size_t si = (size_t)(((char*)v1 - (char*)t->data) / Table_Step(t));
+        var arg = viakey ? Table_Key(t, si) : v1;
+        var e2 = NULL; V_TRY(e2, r = get(tabs[ti], arg));
+        if (e2) O("%s %s", op, v_exc_name(e2)); else O("%s %" PRId64, op, val_int(kind, r));
+        if (!nd) XF("table-keyerror", "get of absent key %s answered a value, want KeyError", k.name);
+        else if (viakey) {
+          if (e2) XF("table-get", "get through the stored key object of %s raised %s", k.name, v_exc_name(e2));
+          else if (val_int(kind, r) != nd->val) XF("table-get", "get through the stored key object of %s = %" PRId64 " want %" PRId64, k.name, val_int(kind, r), nd->val);
+        } else {
+          /* what the map says about the value object read as a key: Int -> Int tables look the number up; otherwise the object is not a key (cast: ValueError) */
+          char vn[40]; snprintf(vn, sizeof vn, "%" PRId64, nd->val);
+          ONode* n2 = kind == KI ? map_find(m, vn) : NULL;
+          if (kind != KI) { if (e2 != ValueError) XF("table-get-alias", "get(t, get(t, %s)): the value object is not of the key type, want ValueError, got %s", k.name, e2 ? v_exc_name(e2) : "a value"); }
+          else if (!n2) { if (e2 != KeyError) XF("table-get-alias", "get(t, get(t, %s)): key %s is not bound, want KeyError, got %s", k.name, vn, e2 ? v_exc_name(e2) : "a value"); }
+          else if (e2) XF("table-get-alias", "get(t, get(t, %s)): key %s is bound, got %s", k.name, vn, v_exc_name(e2));
+          else if (val_int(kind, r) != n2->val) XF("table-get-alias", "get(t, get(t, %s)) = %" PRId64 ", the map binds %s to %" PRId64, k.name, val_int(kind, r), vn, n2->val);
+        }
+      }
+      if (t->nslots != nslots0 || t->nitems != nitems0 || (small0 && checksum(t, kind) != cs0)) XF("table-changed-on-error", "%s %s changed the table", op, k.name);
     } else if (strcmp(op, "mem") == 0) {
       bool r = false; V_TRY(exc, r = mem(tabs[ti], KEYOBJ(kind, k)));
       if (exc) O("mem %s", v_exc_name(exc)); else O("mem %d", r ? 1 : 0);
@@ -380,9 +451,40 @@ int main(int argc, char** argv) {
       kinds[ti] = kinds[src]; kind = kinds[ti];
       if (exc) O("assign %s", v_exc_name(exc)); else O("assign | %s", dump(t, kind, 0, 0, 1));
       if (exc) XF("table-assign", "assign raised %s", v_exc_name(exc));
-      if ((int)src == ti) {
-        if (t->nitems != m->count) { XF("table-self-assign", "assign(t, t) left %zu of %zu bindings", t->nitems, m->count); map_clear(m); }
-      } else map_copy(m, &omap[src]);
+      map_copy(m, &omap[src]);      /* dst == src: the map stays as it is; `verify` below compares */
+    } else if (strcmp(op, "newp") == 0 || strcmp(op, "assignm") == 0) {
+      /* heap key/value objects for the argument list (stack compound literals would not outlive the loop body) */
+      var ko[MAXPAIRS + 1], vo[MAXPAIRS + 1];
+      for (int i = 0; i < np + odd; i++) {
+        if (nk == KI) ko[i] = new_raw(Int, $I(pk[i].id));
+        else if (nk == KS) ko[i] = new_raw(String, $S(pk[i].name));
+        else { ko[i] = alloc_raw(PKey); ((struct PKey*)ko[i])->id = pk[i].id; ((struct PKey*)ko[i])->hash = pk[i].hash; ((struct PKey*)ko[i])->tok = NULL; }
+        if (i < np) { if (nk == KP) { vo[i] = alloc_raw(PVal); ((struct PVal*)vo[i])->v = pv[i]; ((struct PVal*)vo[i])->tok = NULL; } else vo[i] = new_raw(Int, $I(pv[i])); }
+      }
+      var kt = nk == KI ? Int : nk == KS ? String : PKey, vt = nk == KP ? PVal : Int;
+      int done = 0;
+      if (op[0] == 'n') {
+        var items[2 * MAXPAIRS + 4]; int ni = 0;
+        items[ni++] = kt; items[ni++] = vt;
+        for (int i = 0; i < np; i++) { items[ni++] = ko[i]; items[ni++] = vo[i]; }
+        if (odd) items[ni++] = ko[np];
+        items[ni] = Terminal;
+        var o = alloc_raw(Table);
+        V_TRY(exc, construct_with(o, $(Tuple, items)));
+        if (exc) dealloc_raw(o);
+        else { del_table(tabs, ti); tabs[ti] = o; kinds[ti] = nk; managed[ti] = 0; t = o; kind = nk; done = 1; }
+        if (odd ? exc != FormatError : exc != NULL) XF("table-new", "new with %d pairs%s: %s", np, odd ? " and one more argument" : "", exc ? v_exc_name(exc) : "no FormatError");
+      } else {
+        var src_map = $(PMap, kt, vt, (size_t)np, ko, vo);
+        V_TRY(exc, assign(tabs[ti], src_map));
+        kinds[ti] = nk; kind = nk; done = !exc;
+        if (exc) XF("table-assign", "assign from a map that is not a Table raised %s", v_exc_name(exc));
+      }
+      if (done) { map_clear(m); for (int i = 0; i < np; i++) map_set(m, pk[i].name, pk[i].hash, pv[i]); }
+      for (int i = 0; i < np + odd; i++) {
+        if (nk == KP) { dealloc_raw(ko[i]); if (i < np) dealloc_raw(vo[i]); } else { del_raw(ko[i]); if (i < np) del_raw(vo[i]); }
+      }
+      O("%s %s | %s", op, exc ? v_exc_name(exc) : "ok", dump(t, kind, 0, 0, 1));
     } else { /* copy */
       var c = NULL; V_TRY(exc, c = copy(tabs[src]));
       if (exc || !c) { O("copy %s", v_exc_name(exc)); XF("table-copy", "copy raised %s", v_exc_name(exc)); }
@@ -397,7 +499,7 @@ int main(int argc, char** argv) {
     t = tabs[ti];
     if (strcmp(op, "check") != 0) {
       since_full[ti]++;
-      if (t->nslots <= FULL || t->nslots != nslots0 || since_full[ti] >= (t->nslots / 4 > 64 ? t->nslots / 4 : 64) || op[0] == 'a' || op[0] == 'c' || strcmp(op, "resize") == 0) { verify(tabs[ti], ti); since_full[ti] = 0; }
+      if (t->nslots <= FULL || t->nslots != nslots0 || since_full[ti] >= (t->nslots / 4 > 64 ? t->nslots / 4 : 64) || op[0] == 'a' || op[0] == 'c' || op[0] == 'n' || strcmp(op, "resize") == 0) { verify(tabs[ti], ti); since_full[ti] = 0; }
     }
     probe_ledger(tabs);
   }
